@@ -252,9 +252,61 @@ class Check:
             parts = list(ex.map(lambda c: self.driver(name, c, timeout=timeout), chunks))
         return [a for part in parts for a in part]
 
+    def run_cases(self, exe, cases, workers=16, mem_gb=6, timeout=3000):
+        """Run `cases` = [(id, header_rest, body)] through a harness binary that answers one JSON line per `//// id …` case.
+        The cases are spread over `workers` processes, each with an address-space limit; when a process dies the first case
+        without an answer gets {"completion": "abort …"} and the rest is run in a new process. Returns {id: answer}."""
+        import resource
+        from concurrent.futures import ThreadPoolExecutor
+
+        def limit():
+            try:
+                resource.setrlimit(resource.RLIMIT_AS, (mem_gb << 30, mem_gb << 30))
+            except (ValueError, OSError):
+                pass
+
+        def one(chunk):
+            out = {}
+            rest = chunk
+            while rest:
+                data = []
+                for cid, hdr, body in rest:
+                    data.append(("//// %s %s" % (cid, hdr)).encode())
+                    data.append(body if isinstance(body, bytes) else body.encode("utf-8", "surrogatepass"))
+                p = subprocess.run([exe], input=b"\n".join(data) + b"\n", capture_output=True, timeout=timeout, preexec_fn=limit)
+                n = 0
+                for l in p.stdout.decode("utf-8", "replace").split("\n"):
+                    if l.startswith("{"):
+                        try:
+                            d = json.loads(l)
+                        except ValueError:
+                            continue
+                        out[d.get("id")] = d
+                        n += 1
+                if p.returncode == 0 or n >= len(rest):
+                    break
+                cid = rest[n][0]
+                out[cid] = {"id": cid, "out": [], "completion": "abort rc=%s %s" % (p.returncode, p.stderr.decode("utf-8", "replace")[-160:]), "jobs": "", "detail": ""}
+                rest = rest[n + 1:]
+            return out
+
+        chunks = [cases[i::workers] for i in range(workers)]
+        res = {}
+        with ThreadPoolExecutor(max_workers=workers) as ex:
+            for part in ex.map(one, [c for c in chunks if c]):
+                res.update(part)
+        return res
+
     def run_bin(self, exe, args=(), input=None, timeout=3000, env=None):
+        def limit():
+            # a generated program that doubles a string in nested loops must not take the machine down: 12 GB of address space
+            try:
+                import resource
+                resource.setrlimit(resource.RLIMIT_AS, (12 << 30, 12 << 30))
+            except (ValueError, OSError, ImportError):
+                pass
         p = subprocess.run([exe] + [str(a) for a in args], input=input, capture_output=True, text=True,
-                           timeout=timeout, env={**os.environ, **(env or {})})
+                           timeout=timeout, env={**os.environ, **(env or {})}, preexec_fn=limit)
         return p.returncode, p.stdout, p.stderr
 
     # ------------------------------------------------------------- obligations
